@@ -21,7 +21,8 @@ var reFilter = regexp.MustCompile(`\{F:[^}]*\}`)
 
 type admDriver struct {
 	*orcDriver
-	quota map[string]int
+	quota    map[string]int
+	f13bSeen bool
 }
 
 func (a *admDriver) coreObs() string {
@@ -163,6 +164,7 @@ func (a *admDriver) send(t orcTx, open map[int]uint64, tag string) string {
 					}
 				}
 			}
+			a.ruleMonitor(m, fi)
 		} else if cls == "msg0:oracle:2" || cls == "msg0:oracle:4" {
 			// admitted but not counted: only the nonce moved
 			if a.coreObs() != beforeCore {
@@ -540,6 +542,10 @@ func domOracleC13(env *Env) error {
 		directedDeparted(env, "C13.counted")
 		directedDepartedNonce(env)
 	}
+	if env.Int("paramsupd", 0) == 1 {
+		directedRules(env)
+		directedParamsUpdates(env, "C13.counted")
+	}
 	for hi := 0; hi < n; hi++ {
 		spec := genOrcSpec(rng, false)
 		minute := env.Int("valset", 0) == 1 && hi%3 == 2
@@ -558,6 +564,9 @@ func domOracleC13(env *Env) error {
 					o.vsDo(act)
 				}
 			}
+			if env.Int("paramsupd", 0) == 1 {
+				a.maybeUpdate(1, 8)
+			}
 			a.block()
 			upd, halted := a.endBlock()
 			if halted {
@@ -565,6 +574,7 @@ func domOracleC13(env *Env) error {
 				break
 			}
 			a.applyUpdates(upd)
+			a.afterEndBlock()
 			a.idsMonitor(uint64(o.c.Header.Height), nil)
 			step := subSecondStep(rng, o.c.Header.Time)
 			if minute && rng.Chance(1, 6) {
